@@ -187,6 +187,9 @@ def check_call(contract, args, kwargs, tol=None):
         for k, (T, ok, nok) in enumerate(conds):
             if not nok:
                 out.failures.append(("%s:raises.required[%s#%d]" % (label, T.__name__, k), "returned normally although the contract requires %s" % T.__name__))
+        # post-state view of the arguments (out-parameters) with identities preserved
+        _WRAP_MEMO.clear()
+        wa = contract.bind(tuple(wrap(a) for a in args), {k: wrap(v) for k, v in kwargs.items()})
         c.in_spec += 1
         post = contract.ensures(wa, wrap(result))
         for name, f in post.items():
@@ -208,7 +211,13 @@ def check_call(contract, args, kwargs, tol=None):
                 if (not ok) and cat in cats:
                     out.failures.append(("%s:warns[%s].justified" % (label, cat), "warning issued although its condition is false"))
         if contract.pure:
+            allowed = []
+            mw = getattr(contract, "may_write", None)
+            if mw is not None:
+                allowed = [getattr(x, "np_ref", None) for x in mw(wa)]
             for arr, before in snaps:
+                if any(arr is y for y in allowed):
+                    continue
                 if not _same(arr, before):
                     out.failures.append(("%s:frame.no_write_to_inputs" % label, "an argument array was modified"))
                     break
